@@ -8,7 +8,7 @@ TB = ("Trusted: Lean 4.33 kernel; axioms propext/Quot.sound/Classical.choice onl
 ALL = ["C%02d" % i for i in range(1, 21)]
 PENDING_REASON = "check not built yet (model/theorems/correspondence pending); see DESIGN.md section 6 build order"
 NA = {}      # property -> reason, for properties deliberately not claimed
-HOLD = {"C05": "check built (matrix, union, compression, 16 theorems) but being re-aligned with fix: commit de90ce5 just applied to /repo; not registered until green on the repaired tree"}
+HOLD = {}
 
 
 def collect():
